@@ -1906,6 +1906,36 @@ fn judge_extras<const N: usize, P: Pad>(
     }
 }
 
+/// Control execution for attribution: run `op` un-attributed on a *fresh, healthy* buffer with the
+/// same capacity, front slot, length and values as `h`. If the operation deviates there too, the
+/// deviation is recorded under its own property and enters the baseline, so that the same deviation
+/// on the post-fault buffer is not blamed on the fault.
+pub fn control_step<const N: usize, P: Pad>(h: &Holder<N, P>, model: &[(u64, u32)], op: &Op, ctx: &mut Ctx, mon: &MonCfg) {
+    if ctx.attribute.is_none() {
+        return;
+    }
+    let obs = observe(h.buf_ref());
+    let (start, len) = measured_layout(h.buf_ref(), &obs).unwrap_or((0, model.len()));
+    let saved = ctx.attribute.take();
+    let saved_case = ctx.cur_case.clone();
+    let mut vc = 7u32;
+    let (mut hc, _m) = build::<N, P>(0, start, len.min(N), None, &mut vc);
+    for (t, (_, v)) in hc.buf().iter_mut().zip(model.iter()) {
+        t.set_val(*v);
+    }
+    let oc = observe(hc.buf_ref());
+    if oc.ids.len() == model.len() {
+        let mut mc = oc.pairs();
+        let mut envc = Env::<N, P>::new(vc);
+        step(&mut hc, &mut mc, op, &mut envc, ctx, mon, None, Some(&oc));
+    }
+    let _ = drop_holder(&mut hc);
+    let _ = ledger_take_events();
+    ctx.attribute = saved;
+    ctx.cur_case = saved_case;
+    ctx.count("control_steps", 1);
+}
+
 /// Drop the buffer inside catch_unwind (a destructor failpoint may be armed by the caller).
 pub fn drop_holder<const N: usize, P: Pad>(h: &mut Holder<N, P>) -> bool {
     // replace with an empty one and drop the old
